@@ -220,6 +220,17 @@ def rule_detached_counterparts(ctx):
         ctx.check(ok, fq, f"{what} has its owner invalidated", f"nothing looks for {what}: the owner is recycled and skipped later, the tree/pattern is attached again next to the conflicting declaration, and the plan that a build from scratch rejects is accepted", "detached lookup + after_lost_product", where=ctx.where_of(ctx.prog.func(fq)))
 
 
+def rule_glob_vs_declared_products(ctx):
+    """R-C08-8: the rule 'a glob pattern may only match static files' is enforced in both arrival orders for every
+    declared product, on disk or not: define_step/amend_step test the regex of every registered pattern against the
+    declared paths, so register_nglob has to test the new pattern's regex against the products that are declared
+    already (not only the matches the client found on disk against the product nodes)."""
+    rn = ctx.prog.func("workflow.Workflow.register_nglob")
+    uses_regex = any(isinstance(c.func, ast.Attribute) and c.func.attr in ("fullmatch", "match", "search") for c in calls_in(rn.node)) or any(callee_name(c) in ("_match_values", "matches") for c in calls_in(rn.node))
+    ctx.check(uses_regex, rn.fq, "a new pattern is tested against the products that are declared already",
+              "register_nglob only compares the on-disk matches sent by the client with the product nodes: an output that is declared but not built yet is not among them, so `step(out=o.txt)` followed by `glob(*.txt)` is accepted while the opposite order is rejected (and the accepted plan fails at the next restart, when the rescan finds o.txt)", "regex applied to declared product labels", where=ctx.where_of(rn))
+
+
 def rule_detached_counterparts_more(ctx):
     """R-C08-7: the other declaration sites that can collide with something detached."""
     rt = ctx.prog.func("workflow.Workflow.register_static_tree")
@@ -273,6 +284,7 @@ RULES = [
     Rule("R-C08-1", "the claim is a database fact", rule_claim_is_db_fact, min_instances=5),
     Rule("R-C08-2", "every conflict relation is guarded in both directions, before the mutation", rule_guard_pairs, min_instances=20),
     Rule("R-C08-3", "declare only after the claim check", rule_declare_after_check, min_instances=9),
+    Rule("R-C08-8", "a new glob pattern is tested against declared products", rule_glob_vs_declared_products, min_instances=1),
     Rule("R-C08-7", "nested trees, undeclared inputs and volatile memories against detached declarations", rule_detached_counterparts_more, min_instances=3),
     Rule("R-C08-6", "declarations that conflict with a detached tree or pattern invalidate its owner", rule_detached_counterparts, min_instances=2),
     Rule("R-C08-5", "a claim taken from a detached owner is re-examined when the owner's plans run again", rule_lost_claim_is_rechecked, min_instances=4),
